@@ -190,15 +190,27 @@ where
         if state == &self.current_state {
             return;
         }
-        match self.paused_animation.as_ref() {
+        let resume_position = match self.paused_animation.as_ref() {
             Some((paused_state, paused_position)) if state == paused_state => {
-                self.state_duration = *paused_position;
+                Some(*paused_position)
             }
-            _ => {
+            _ => None,
+        };
+        match resume_position {
+            Some(paused_position) => {
+                // The remembered position is consumed by the resume.
+                self.state_duration = paused_position;
+                self.paused_animation = None;
+            }
+            None => {
                 let was_animating = self.timelines.get(&self.current_state).is_some();
                 let will_animate = self.timelines.get(state).is_some();
                 if was_animating && !will_animate {
                     self.paused_animation = Some((self.current_state.clone(), self.state_duration));
+                } else if will_animate {
+                    // Entering any other animated state discards the remembered position, so that
+                    // a later return to the interrupted state blends afresh instead of jumping.
+                    self.paused_animation = None;
                 }
                 self.blend_next_timeline(state);
                 self.state_duration = Duration::ZERO;
